@@ -185,6 +185,25 @@ class Obj:
     def __ge__(self, other):
         return self._order('__ge__', other)
 
+    def __str__(self):
+        if '__str__' in self.methods:
+            return self.call('__str__')
+        if '__repr__' in self.methods:
+            return self.call('__repr__')
+        return '<%s object>' % (self.clsname or 'record')
+
+    def __repr__(self):
+        if '__repr__' in self.methods:
+            return self.call('__repr__')
+        return '<%s object>' % (self.clsname or 'record')
+
+    def __format__(self, spec):
+        if '__format__' in self.methods:
+            return self.call('__format__', spec)
+        if spec:
+            raise TypeError('unsupported format string passed to %s.__format__' % (self.clsname or 'record'))
+        return str(self)
+
     def __bool__(self):
         if '__bool__' in self.methods:
             return bool(self.call('__bool__'))
@@ -192,10 +211,19 @@ class Obj:
             return self.call('__len__') != 0
         return True
 
-    def call(self, name, *args, _fn=None, _owner=None, **kwargs):
+    def call(self, name, *args, _fn=None, _owner=None, _raw=False, **kwargs):
         fn = _fn if _fn is not None else self.methods.get(name)
         if fn is None:
             raise Unsupported('no method %s' % name)
+        if not _raw and _other_decorators(fn):
+            # a method wrapped by a decorator of the repository (or lru_cache ...): the decorated function is called with the receiver first
+            owner_ = _owner
+
+            def raw(receiver, *a, **k):
+                return Obj.call(receiver, name, *a, _fn=fn, _owner=owner_, _raw=True, **k)
+            raw.__name__ = name
+            recv = self.target if isinstance(self, _Bound) else self
+            return _decorate(fn, raw, self.funcs)(recv if not isinstance(self, _Bound) else self, *args, **kwargs)
         params = [a.arg for a in fn.args.args]
         static = any(isinstance(d, ast.Name) and d.id == 'staticmethod' for d in fn.decorator_list)
         env = {}
@@ -226,7 +254,7 @@ import types as _types
 import re as _re_mod
 import string as _string_mod
 _SAFE_MODULES = {'re': _re_mod, 'string': _string_mod}
-_PLUMBING = ('itertools', 'functools', 'operator')
+_PLUMBING = ('itertools', 'functools', 'operator', 'collections', 'heapq', 'bisect', 'contextlib')
 # builtins that may be taken as values (handed to map / partial / a table) and then mean what the interpreter makes them mean
 _VALUE_BUILTINS = frozenset(('getattr', 'setattr', 'hasattr', 'delattr', 'isinstance', 'len', 'iter', 'next', 'str', 'repr', 'hash', 'id', 'list', 'tuple', 'set', 'frozenset',
                              'dict', 'sorted', 'reversed', 'enumerate', 'zip', 'map', 'filter', 'min', 'max', 'sum', 'any', 'all', 'abs', 'int', 'float', 'bool', 'round',
@@ -360,6 +388,11 @@ _DUNDER = {ast.Lt: '__lt__', ast.LtE: '__le__', ast.Gt: '__gt__', ast.GtE: '__ge
 def _is_property(fn):
     return any((isinstance(d, ast.Name) and d.id in ('property', 'cached_property')) or (isinstance(d, ast.Attribute) and d.attr in ('cached_property',))
                for d in getattr(fn, 'decorator_list', ()))
+
+
+def _is_std_container(v):
+    import collections as _cl
+    return isinstance(v, (_cl.deque, _cl.defaultdict, _cl.OrderedDict, _cl.Counter, _cl.ChainMap)) or (isinstance(v, tuple) and hasattr(type(v), '_fields'))
 
 
 def _demangled(o, name):
@@ -712,7 +745,191 @@ def _build_pure_modules():
 
     class _Operator(_PureModule):
         _names = names
-    return {'itertools': _Itertools(), 'functools': _Functools(), 'operator': _Operator()}
+
+    import collections as cl
+
+    class _Collections(_PureModule):
+        _names = {'namedtuple': cl.namedtuple, 'deque': lambda *a, **k: cl.deque(*[_iter(x) for x in a[:1]], *a[1:], **k), 'defaultdict': cl.defaultdict,
+                  'OrderedDict': cl.OrderedDict, 'Counter': lambda *a, **k: cl.Counter(*[(x if isinstance(x, dict) else _iter(x)) for x in a], **k), 'ChainMap': cl.ChainMap}
+
+    # heapq / bisect re-implemented over the interpreter's ordering (records compare through the repository's __lt__)
+    def _siftdown(heap, startpos, pos):
+        newitem = heap[pos]
+        while pos > startpos:
+            parentpos = (pos - 1) >> 1
+            parent = heap[parentpos]
+            if _lt(newitem, parent):
+                heap[pos] = parent
+                pos = parentpos
+                continue
+            break
+        heap[pos] = newitem
+
+    def _siftup(heap, pos):
+        endpos = len(heap)
+        startpos = pos
+        newitem = heap[pos]
+        childpos = 2 * pos + 1
+        while childpos < endpos:
+            rightpos = childpos + 1
+            if rightpos < endpos and not _lt(heap[childpos], heap[rightpos]):
+                childpos = rightpos
+            heap[pos] = heap[childpos]
+            pos = childpos
+            childpos = 2 * pos + 1
+        heap[pos] = newitem
+        _siftdown(heap, startpos, pos)
+
+    def heappush(heap, item):
+        heap.append(item)
+        _siftdown(heap, 0, len(heap) - 1)
+
+    def heappop(heap):
+        lastelt = heap.pop()
+        if heap:
+            returnitem = heap[0]
+            heap[0] = lastelt
+            _siftup(heap, 0)
+            return returnitem
+        return lastelt
+
+    def heapify(x):
+        for i in reversed(range(len(x) // 2)):
+            _siftup(x, i)
+
+    def heapreplace(heap, item):
+        returnitem = heap[0]
+        heap[0] = item
+        _siftup(heap, 0)
+        return returnitem
+
+    def heappushpop(heap, item):
+        if heap and _lt(heap[0], item):
+            item, heap[0] = heap[0], item
+            _siftup(heap, 0)
+        return item
+
+    def _sorted(iterable, key=None, reverse=False):
+        out = list(_iter(iterable))
+        _sort_in_place(out, {'key': key, 'reverse': reverse})
+        return out
+
+    class _Heapq(_PureModule):
+        _names = {'heappush': heappush, 'heappop': heappop, 'heapify': heapify, 'heapreplace': heapreplace, 'heappushpop': heappushpop,
+                  'nsmallest': lambda n_, it_, key=None: _sorted(it_, key=key)[:n_], 'nlargest': lambda n_, it_, key=None: _sorted(it_, key=key, reverse=True)[:n_]}
+
+    def bisect_right(a, x, lo=0, hi=None, *, key=None):
+        if lo < 0:
+            raise ValueError('lo must be non-negative')
+        if hi is None:
+            hi = len(a)
+        while lo < hi:
+            mid = (lo + hi) // 2
+            if _lt(x, a[mid] if key is None else key(a[mid])):
+                hi = mid
+            else:
+                lo = mid + 1
+        return lo
+
+    def bisect_left(a, x, lo=0, hi=None, *, key=None):
+        if lo < 0:
+            raise ValueError('lo must be non-negative')
+        if hi is None:
+            hi = len(a)
+        while lo < hi:
+            mid = (lo + hi) // 2
+            if _lt(a[mid] if key is None else key(a[mid]), x):
+                lo = mid + 1
+            else:
+                hi = mid
+        return lo
+
+    def insort_right(a, x, lo=0, hi=None, *, key=None):
+        a.insert(bisect_right(a, x if key is None else key(x), lo, hi, key=key), x)
+
+    def insort_left(a, x, lo=0, hi=None, *, key=None):
+        a.insert(bisect_left(a, x if key is None else key(x), lo, hi, key=key), x)
+
+    class _Bisect(_PureModule):
+        _names = {'bisect': bisect_right, 'bisect_right': bisect_right, 'bisect_left': bisect_left, 'insort': insort_right, 'insort_right': insort_right, 'insort_left': insort_left}
+
+    class _GenCM:
+        """what contextlib.contextmanager makes of a generator function"""
+
+        def __init__(self, gen):
+            self.gen = gen
+
+        def __enter__(self):
+            try:
+                return next(self.gen)
+            except StopIteration:
+                raise RuntimeError("generator didn't yield")
+
+        def __exit__(self, typ, value, tb):
+            if typ is None:
+                try:
+                    next(self.gen)
+                except StopIteration:
+                    return False
+                raise RuntimeError("generator didn't stop")
+            try:
+                self.gen.throw(value)
+            except StopIteration:
+                return True
+            except BaseException as ex:
+                if ex is value:
+                    return False
+                raise
+            raise RuntimeError("generator didn't stop after throw()")
+
+    def contextmanager(fn):
+        def helper(*a, **k):
+            return _GenCM(fn(*a, **k))
+        helper.__name__ = getattr(fn, '__name__', 'helper')
+        return helper
+
+    class _NullContext:
+        def __init__(self, enter_result=None):
+            self.enter_result = enter_result
+
+        def __enter__(self):
+            return self.enter_result
+
+        def __exit__(self, *exc):
+            return False
+
+    class _Contextlib(_PureModule):
+        _names = {'contextmanager': contextmanager, 'nullcontext': _NullContext}
+
+    def wraps(wrapped, *a, **k):
+        def deco(fn):
+            try:
+                fn.__name__ = getattr(wrapped, '__name__', getattr(fn, '__name__', 'wrapper'))
+            except Exception:
+                pass
+            return fn
+        return deco
+
+    def lru_cache(maxsize=128, typed=False):
+        def deco(fn):
+            memo = {}
+
+            def cached(*a, **k):
+                key = (a, tuple(sorted(k.items())))
+                hash(key)
+                if key not in memo:
+                    memo[key] = fn(*a, **k)
+                return memo[key]
+            cached.__name__ = getattr(fn, '__name__', 'cached')
+            cached.cache_clear = memo.clear
+            return cached
+        if callable(maxsize) and not isinstance(maxsize, (int, type(None))):
+            fn_, maxsize = maxsize, 128
+            return deco(fn_)
+        return deco
+    _Functools._names.update({'wraps': wraps, 'lru_cache': lru_cache, 'cache': lru_cache(None)})
+    return {'itertools': _Itertools(), 'functools': _Functools(), 'operator': _Operator(), 'collections': _Collections(), 'heapq': _Heapq(), 'bisect': _Bisect(),
+            'contextlib': _Contextlib()}
 
 
 _SYN_STORE = ast.parse('_a0[_a1]', mode='eval').body
@@ -886,6 +1103,117 @@ def _gen_block(stmts, env, funcs, limit=10000):
     return ('fall', None)
 
 
+_MATCH_BUILTINS = {'int': int, 'float': float, 'str': str, 'bool': bool, 'list': list, 'tuple': tuple, 'dict': dict, 'set': set, 'frozenset': frozenset,
+                   'bytes': bytes, 'complex': complex}
+
+
+def _match_pattern(p, v, env, funcs, binds):
+    if isinstance(p, ast.MatchValue):
+        pv = ev(p.value, env, funcs)
+        if isinstance(pv, Obj) or isinstance(v, Obj):
+            return bool(v == pv)
+        return v == pv
+    if isinstance(p, ast.MatchSingleton):
+        return v is p.value
+    if isinstance(p, ast.MatchAs):
+        if p.pattern is not None and not _match_pattern(p.pattern, v, env, funcs, binds):
+            return False
+        if p.name is not None:
+            binds[p.name] = v
+        return True
+    if isinstance(p, ast.MatchOr):
+        for alt in p.patterns:
+            b2 = {}
+            if _match_pattern(alt, v, env, funcs, b2):
+                binds.update(b2)
+                return True
+        return False
+    if isinstance(p, ast.MatchSequence):
+        if not isinstance(v, (list, tuple)) or isinstance(v, (str, bytes)):
+            if isinstance(v, (Obj, PyStub)):
+                raise Unsupported('sequence pattern on an abstract object')
+            return False
+        stars = [i_ for i_, q in enumerate(p.patterns) if isinstance(q, ast.MatchStar)]
+        if not stars:
+            return len(v) == len(p.patterns) and all(_match_pattern(q, x, env, funcs, binds) for q, x in zip(p.patterns, v))
+        k_ = stars[0]
+        after = len(p.patterns) - k_ - 1
+        if len(v) < len(p.patterns) - 1:
+            return False
+        if not all(_match_pattern(q, x, env, funcs, binds) for q, x in zip(p.patterns[:k_], v[:k_])):
+            return False
+        if after and not all(_match_pattern(q, x, env, funcs, binds) for q, x in zip(p.patterns[k_ + 1:], v[len(v) - after:])):
+            return False
+        if p.patterns[k_].name is not None:
+            binds[p.patterns[k_].name] = list(v[k_:len(v) - after])
+        return True
+    if isinstance(p, ast.MatchMapping):
+        if not isinstance(v, dict):
+            if isinstance(v, (Obj, PyStub)):
+                raise Unsupported('mapping pattern on an abstract object')
+            return False
+        keys = [ev(k_, env, funcs) for k_ in p.keys]
+        for k_, q in zip(keys, p.patterns):
+            if k_ not in v or not _match_pattern(q, v[k_], env, funcs, binds):
+                return False
+        if p.rest is not None:
+            binds[p.rest] = {k_: x for k_, x in v.items() if k_ not in keys}
+        return True
+    if isinstance(p, ast.MatchClass) and isinstance(p.cls, ast.Name) and p.cls.id in _MATCH_BUILTINS and p.cls.id not in env and not p.kwd_patterns and len(p.patterns) <= 1:
+        if isinstance(v, (Obj, PyStub)) or not isinstance(v, _MATCH_BUILTINS[p.cls.id]):
+            return False
+        return not p.patterns or _match_pattern(p.patterns[0], v, env, funcs, binds)
+    raise Unsupported('match pattern %s' % type(p).__name__)
+
+
+def _run_match(s, env, funcs, limit):
+    subject = ev(s.subject, env, funcs)
+    for case in s.cases:
+        binds = {}
+        if not _match_pattern(case.pattern, subject, env, funcs, binds):
+            continue
+        for k_, v_ in binds.items():
+            _bind(ast.Name(id=k_, ctx=ast.Store()), v_, env, funcs)
+        if case.guard is not None and not ev(case.guard, env, funcs):
+            continue
+        return run_block(case.body, env, funcs, limit)
+    return ('fall', None)
+
+
+def _cm_call(cm, name, *args):
+    if isinstance(cm, Obj):
+        if name not in cm.methods:
+            raise TypeError('%r object does not support the context manager protocol' % (cm.clsname or 'record'))
+        return cm.call(name, *args)
+    if not hasattr(cm, name):
+        raise Unsupported('context manager without %s' % name)
+    return getattr(cm, name)(*args)
+
+
+_BODY_ERRORS = (Raised, IndexError, KeyError, ZeroDivisionError, TypeError, AttributeError, ValueError, RuntimeError, OverflowError)
+
+
+def _run_with(s, k, env, funcs, limit):
+    """with a, b, ...: the items are entered in order and left in reverse; an exception of the body is handed to __exit__, which may swallow it"""
+    if k == len(s.items):
+        return run_block(s.body, env, funcs, limit)
+    it = s.items[k]
+    cm = ev(it.context_expr, env, funcs)
+    if not isinstance(cm, Obj) and (not hasattr(cm, '__enter__') or not hasattr(cm, '__exit__')):
+        raise Unsupported('with %s' % _unparse(it.context_expr))
+    v_ = _cm_call(cm, '__enter__')
+    if it.optional_vars is not None:
+        _bind(it.optional_vars, v_, env, funcs)
+    try:
+        r = _run_with(s, k + 1, env, funcs, limit)
+    except _BODY_ERRORS as ex:
+        if _cm_call(cm, '__exit__', type(ex), ex, None):
+            return ('fall', None)
+        raise
+    _cm_call(cm, '__exit__', None, None, None)
+    return r
+
+
 def _matching_handler(s, ex):
     exname = ex.name if isinstance(ex, Raised) else type(ex).__name__
     for h in s.handlers:
@@ -972,6 +1300,10 @@ def ev(n, env, funcs=None):
             raise AttributeError("'NoneType' object has no attribute %r (%s)" % (n.attr, txt))
         if isinstance(v, (int, float, complex)) and n.attr in ('real', 'imag'):
             return getattr(v, n.attr)
+        if isinstance(v, tuple) and hasattr(type(v), '_fields') and (n.attr in type(v)._fields or n.attr == '_fields'):
+            return getattr(v, n.attr)              # a field of a namedtuple
+        if _is_std_container(v) and n.attr in ('maxlen', 'default_factory', 'maps'):
+            return getattr(v, n.attr)
         raise Unsupported('attribute %s' % txt)
     if isinstance(n, ast.Subscript):
         base = ev(n.value, env, funcs)
@@ -984,6 +1316,8 @@ def ev(n, env, funcs=None):
             return Obj.call(_Bound(base, base.repo_methods, getattr(base, 'repo_funcs', funcs)), '__getitem__', idx)
         if isinstance(base, PyStub) and hasattr(base, '__getitem__'):
             return base[idx]
+        if _is_std_container(base) and not isinstance(base, tuple):
+            return base[idx]                       # defaultdict (creates the entry), Counter (0), deque (by position)
         if isinstance(base, dict) and not isinstance(base, Table):
             if idx not in base:
                 raise KeyError(idx)
@@ -1012,6 +1346,12 @@ def ev(n, env, funcs=None):
             return callee(*_args(n, env, funcs), **_kw(n, env, funcs))
         if isinstance(f, ast.Name) and f.id in env and callable(env[f.id]) and not isinstance(env[f.id], type):
             return env[f.id](*_args(n, env, funcs), **_kw(n, env, funcs))      # a local bound to a function (lambda, parameter)
+        if isinstance(f, ast.Name) and f.id in env and isinstance(env[f.id], Obj):
+            if '__call__' not in env[f.id].methods:
+                raise TypeError('%r object is not callable' % (env[f.id].clsname or 'record'))
+            return env[f.id].call('__call__', *_args(n, env, funcs), **_kw(n, env, funcs))
+        if isinstance(f, ast.Name) and f.id in env and isinstance(env[f.id], type) and (env[f.id].__module__ == 'collections' or hasattr(env[f.id], '_fields')):
+            return env[f.id](*_args(n, env, funcs), **_kw(n, env, funcs))      # a namedtuple class / a collections class held in a local
         if isinstance(f, ast.Attribute) and fname == 'is_integer' and not n.args:
             v = ev(f.value, env, funcs)
             if isinstance(v, (int, float)):
@@ -1021,6 +1361,12 @@ def ev(n, env, funcs=None):
             # the standard copy module (not numpy.copy, which the harness may provide under the same bare name)
             from . import absint as _absint
             return (_absint.shallow_copy if fname == 'copy' else _absint.deep_copy)(ev(n.args[0], env, funcs))
+        if isinstance(f, ast.Attribute) and isinstance(f.value, ast.Name) and f.value.id in _MATCH_BUILTINS and f.value.id not in env \
+                and not (funcs and f.value.id in funcs) and not fname.startswith('_') and hasattr(_MATCH_BUILTINS[f.value.id], fname):
+            # dict.fromkeys(...), str.join(sep, parts), float.fromhex(...): a method of a builtin type reached through the type
+            a_ = [(list(_iter(x_)) if not isinstance(x_, (str, bytes, dict, list, tuple, set, frozenset, int, float, bool, type(None), complex)) and not isinstance(x_, (Obj, PyStub)) and hasattr(x_, '__next__') else x_)
+                  for x_ in _args(n, env, funcs)]
+            return getattr(_MATCH_BUILTINS[f.value.id], fname)(*a_, **_kw(n, env, funcs))
         if isinstance(f, ast.Attribute) and isinstance(f.value, ast.Name) and f.value.id in _PLUMBING and f.value.id not in env \
                 and not (funcs and f.value.id in funcs.get('__globals__', ())):
             return getattr(pure_module(f.value.id), fname)(*_args(n, env, funcs), **_kw(n, env, funcs))
@@ -1045,7 +1391,8 @@ def ev(n, env, funcs=None):
                 return rv.__dict__[fname](*_args(n, env, funcs), **_kw(n, env, funcs))      # itertools.chain.from_iterable
             if type(rv).__module__ == 're' and not fname.startswith('_') and hasattr(rv, fname):      # re.Match / re.Pattern objects
                 return getattr(rv, fname)(*_args(n, env, funcs), **_kw(n, env, funcs))
-            if type(rv) in (list, set, dict, str, tuple, bytes, frozenset) and not fname.startswith('_') and hasattr(rv, fname):
+            if (type(rv) in (list, set, dict, str, tuple, bytes, frozenset) or _is_std_container(rv)) and not fname.startswith('__') and hasattr(rv, fname) \
+                    and (not fname.startswith('_') or fname in ('_replace', '_asdict', '_make')):
                 kw_ = _kw(n, env, funcs)
                 if fname == 'sort' and callable(kw_.get('key')) or fname == 'sort':
                     return _sort_in_place(rv, kw_)
@@ -1232,7 +1579,7 @@ def ev(n, env, funcs=None):
             return math.fabs(args[0]) if isinstance(args[0], (int, float)) and not isinstance(args[0], complex) else abs(args[0])
         if fname == 'len' and len(args) == 1 and isinstance(args[0], Obj) and '__len__' in args[0].methods:
             return args[0].call('__len__')
-        if fname == 'len' and len(args) == 1 and (isinstance(args[0], (list, tuple, dict, str, set)) or (isinstance(args[0], PyStub) and hasattr(args[0], '__len__'))):
+        if fname == 'len' and len(args) == 1 and (isinstance(args[0], (list, tuple, dict, str, set, frozenset, bytes, range)) or _is_std_container(args[0]) or (isinstance(args[0], PyStub) and hasattr(args[0], '__len__'))):
             return len(args[0])
         if fname == 'range' and isinstance(f, ast.Name) and all(isinstance(a, int) for a in args):
             return list(range(*args))
@@ -1296,7 +1643,7 @@ def ev(n, env, funcs=None):
             target = funcs['__resolve__'](n, fname)
             if target is not None:
                 return target(*args, **kw_)
-        if funcs and fname in funcs and fname not in ('__globals__', '__name__', '__resolve__', '__defaults__', '__default_values__', '__np_names__'):
+        if funcs and fname in funcs and fname not in ('__globals__', '__name__', '__resolve__', '__defaults__', '__default_values__', '__np_names__', '__made__'):
             return funcs[fname](*args, **kw_)
         if funcs and '__resolve__' in funcs:
             target = funcs['__resolve__'](n, fname)
@@ -1815,7 +2162,14 @@ def run_block(stmts, env, funcs=None, limit=10000):
             if not ev(s.test, env, funcs):
                 raise Raised('AssertionError', ast.unparse(s.test)[:200])
         elif isinstance(s, ast.FunctionDef):
-            env[s.name] = _closure(s, env, funcs)
+            c_ = _closure(s, env, funcs)
+            for d_ in reversed(_other_decorators(s)):
+                c_ = ev(d_, env, funcs)(c_)
+            env[s.name] = c_
+        elif isinstance(s, ast.Match):
+            r = _run_match(s, env, funcs, limit)
+            if r[0] != 'fall':
+                return r
         elif isinstance(s, ast.With) and all(isinstance(it.context_expr, ast.Call) and
                                              ast.unparse(it.context_expr.func).split('.')[-1] in ('catch_warnings', 'suppress', 'nullcontext', 'errstate')
                                              for it in s.items):
@@ -1823,20 +2177,7 @@ def run_block(stmts, env, funcs=None, limit=10000):
             if r[0] != 'fall':
                 return r
         elif isinstance(s, ast.With):
-            entered = []
-            try:
-                for it in s.items:
-                    cm = ev(it.context_expr, env, funcs)
-                    if not hasattr(cm, '__enter__') or not hasattr(cm, '__exit__'):
-                        raise Unsupported('with %s' % _unparse(it.context_expr))
-                    v_ = cm.__enter__()
-                    entered.append(cm)
-                    if it.optional_vars is not None:
-                        _bind(it.optional_vars, v_, env, funcs)
-                r = run_block(s.body, env, funcs, limit)
-            finally:
-                for cm in reversed(entered):
-                    cm.__exit__(None, None, None)
+            r = _run_with(s, 0, env, funcs, limit)
             if r[0] != 'fall':
                 return r
         elif isinstance(s, ast.Import):
@@ -2006,4 +2347,39 @@ def make_func(fn, funcs=None, self_obj=None):
         kind, val = run_block(body, env, funcs)
         return val if kind == 'return' else None
     call.__name__ = getattr(fn, 'name', 'function')
-    return call
+    return _decorate(fn, call, funcs)
+
+
+_PLAIN_DECORATORS = ('staticmethod', 'classmethod', 'property', 'abstractmethod', 'cached_property')
+
+
+def _other_decorators(fn):
+    out = []
+    for d in getattr(fn, 'decorator_list', ()):
+        if isinstance(d, ast.Name) and d.id in _PLAIN_DECORATORS:
+            continue
+        if isinstance(d, ast.Attribute) and d.attr in ('setter', 'deleter', 'getter', 'abstractmethod', 'cached_property'):
+            continue
+        out.append(d)
+    return out
+
+
+def _decorate(fn, call, funcs, env=None):
+    """f = decorator(f), innermost first, as the def statement does; the decorated function is made once per function and name table
+    (a cache kept by a decorator lives as long as the module does)"""
+    decs = _other_decorators(fn)
+    if not decs:
+        return call
+    made = funcs.setdefault('__made__', {}) if isinstance(funcs, dict) else {}
+    key = id(fn)
+    if key in made and made[key][0] is fn:
+        return made[key][1]
+    out = call
+    made[key] = (fn, None)
+    for d in reversed(decs):
+        deco = ev(d, env if env is not None else {}, funcs)
+        if not callable(deco):
+            raise TypeError('%r object is not callable' % type(deco).__name__)
+        out = deco(out)
+    made[key] = (fn, out)
+    return out
